@@ -384,6 +384,18 @@ def check(tier):
     cases, dist = gen_cases(rng, tier, boost)
     cases = corpus_cases() + cases
     r = vlib.differential("seq", exe, cases)
+    # second pass with the library's own growth policy (hook off): paths that need spare capacity
+    # (GetString adopting the buffer, InsertNull without growth, appends into slack) do not exist
+    # under exact-fit growth
+    exe_nh, msg_nh = vlib.build_cpp("drv_seq_nohook", "drv_seq.cpp", hook=False)
+    if exe_nh is not None:
+        r_nh = vlib.differential("seq", exe_nh, cases[: max(2000, len(cases) // 2)])
+        have = set(x[0] for x in r.oracle_fail)
+        r.oracle_fail += [x for x in r_nh.oracle_fail if x[0] not in have]
+        have = set(x[0] for x in r.mismatch)
+        r.mismatch += [x for x in r_nh.mismatch if x[0] not in have]
+        r.crashes += r_nh.crashes
+        r.n += r_nh.n
 
     found_input = False
     seen = set()
